@@ -2,6 +2,7 @@
 # tools/sedmut.sh <file rel to repo> <sed expr> <prop> [args]: check against a scratch copy with a sed edit
 F="$1"; E="$2"; PROP="$3"; shift 3
 S=$(mktemp -d /tmp/hvmut.XXXXXX)
+trap 'git -C /repo worktree remove --force "$S/repo" 2>/dev/null; rm -rf "$S"' EXIT INT TERM
 git -C /repo worktree add --detach "$S/repo" HEAD >/dev/null 2>&1
 sed -i "$E" "$S/repo/$F"
 ( cd "$S/repo" && git diff --stat | tail -1 )
